@@ -1,6 +1,21 @@
 use crate::{DbIndex, LuaType, get_real_type};
 
 pub fn intersect_type(db: &DbIndex, source: LuaType, target: LuaType) -> LuaType {
+    intersect_type_with_depth(db, source, target, 0)
+}
+
+fn intersect_type_with_depth(
+    db: &DbIndex,
+    source: LuaType,
+    target: LuaType,
+    depth: u32,
+) -> LuaType {
+    // A recursive alias (`---@alias Y Y?`) resolves to a union that contains itself.
+    const MAX_RECURSION_DEPTH: u32 = 10;
+    if depth >= MAX_RECURSION_DEPTH {
+        return source;
+    }
+
     let real_type = get_real_type(db, &source).unwrap_or(&source);
 
     match (&real_type, &target) {
@@ -85,7 +100,8 @@ pub fn intersect_type(db: &DbIndex, source: LuaType, target: LuaType) -> LuaType
             let mut result_types = Vec::new();
 
             for left_type in left_types {
-                let intersected = intersect_type(db, left_type, right.clone());
+                let intersected =
+                    intersect_type_with_depth(db, left_type, right.clone(), depth + 1);
                 if !matches!(intersected, LuaType::Never) {
                     result_types.push(intersected);
                 }
@@ -103,7 +119,8 @@ pub fn intersect_type(db: &DbIndex, source: LuaType, target: LuaType) -> LuaType
             let mut result_types = Vec::new();
 
             for right_type in right_types {
-                let intersected = intersect_type(db, real_type.clone(), right_type);
+                let intersected =
+                    intersect_type_with_depth(db, real_type.clone(), right_type, depth + 1);
                 if !matches!(intersected, LuaType::Never) {
                     result_types.push(intersected);
                 }
@@ -123,7 +140,12 @@ pub fn intersect_type(db: &DbIndex, source: LuaType, target: LuaType) -> LuaType
 
             for left_type in left_types {
                 for right_type in &right_types {
-                    let intersected = intersect_type(db, left_type.clone(), right_type.clone());
+                    let intersected = intersect_type_with_depth(
+                        db,
+                        left_type.clone(),
+                        right_type.clone(),
+                        depth + 1,
+                    );
                     if !matches!(intersected, LuaType::Never) {
                         result_types.push(intersected);
                     }
